@@ -16,6 +16,19 @@ type monC13 struct {
 	sms    []*smsSent // latest code sent for each browser
 	issued []string   // e-mail verify token mailed for this browser's session
 	authed []bool     // model: this browser's session presented its mailed token
+	spentRec map[string]bool // recovery codes already used once (whatever storage still says)
+}
+
+func (c *monC13) unusedRecovery(who string, pre harness.User, code string) bool {
+	if c.spentRec == nil {
+		c.spentRec = map[string]bool{}
+	}
+	k := who + "|" + code
+	if c.spentRec[k] || !recoveryInList(pre.RecoveryCodes, code) {
+		return false
+	}
+	c.spentRec[k] = true
+	return true
 }
 
 func (c *monC13) Init(m *Machine) {
@@ -128,7 +141,7 @@ func (c *monC13) After(m *Machine, s *Step) *Violation {
 		case dT: // disabling TOTP
 			a, z := totpValidAt(s.Secret, pre.TOTPSecretKey, r.T0, r.T1)
 			okCode := !op.F && (a || z)
-			okRec := op.F && recoveryInList(pre.RecoveryCodes, s.Secret)
+			okRec := op.F && c.unusedRecovery(pid, pre, s.Secret)
 			if op.K != "totpremove" || !(okCode || okRec) {
 				return violation("C13", "totp-disabled-without-proof:"+op.K+":"+op.Src, "TOTP of %q was removed by %s with %q (recovery field %v)", pid, op.K, s.Secret, op.F)
 			}
@@ -146,7 +159,7 @@ func (c *monC13) After(m *Machine, s *Step) *Violation {
 			c.authed[b] = false
 		case dS: // disabling SMS
 			okCode := !op.F && prevSMS != nil && !prevSMS.consumed && prevSMS.code == s.Secret && prevSMS.number == pre.SMSPhone && s.Secret != ""
-			okRec := op.F && recoveryInList(pre.RecoveryCodes, s.Secret)
+			okRec := op.F && c.unusedRecovery(pid, pre, s.Secret)
 			if op.K != "smsremove" || !(okCode || okRec) {
 				return violation("C13", "sms-disabled-without-proof:"+op.K+":"+op.Src, "SMS 2FA of %q (number %q) was removed by %s with %q (recovery field %v); latest code for this browser %+v", pid, pre.SMSPhone, op.K, s.Secret, op.F, prevSMS)
 			}
